@@ -66,23 +66,24 @@ def rule_CV1(ctx, rep):
     else:
         rep.bad('CV1', fn, ins[1], 'the contributions to the mask are input by different senders in the two fields')
     # what the senders input: wrappers of one list of drawn integers
+    # (read off the elements flowing into the two input lists -- comprehension or append loop alike -- and their binders)
+    from .rules_rt import list_elements
     srcs = {}
     for c in ins:
-        a0 = c.args[0]
-        vals = [v for _, v, how in astq.reaching_definitions(fn.node, a0.id, c, pm) if v is not None] if isinstance(a0, ast.Name) else [a0]
-        comps = [v for v in vals if isinstance(v, (ast.ListComp, ast.GeneratorExp)) and isinstance(v.elt, ast.Call) and len(v.elt.args) == 1]
-        for v in comps:
-            g = v.generators[0]
-            if isinstance(v.elt.args[0], ast.Name) and isinstance(g.target, ast.Name) and v.elt.args[0].id == g.target.id:
-                fld = _field_of(fn, v.elt.func, c, pm)
-                srcs[fld] = norm(g.iter)
+        elts, _complete = list_elements(fn, c.args[0], c, pm)
+        for e in elts:
+            if isinstance(e, ast.Call) and len(e.args) == 1 and isinstance(e.args[0], ast.Name):
+                bs, _g = routes._context(fn, e, pm)
+                for b in bs:
+                    if b.kind in ('iter', 'enum') and b.elem == e.args[0].id and b.src is not None:
+                        srcs[_field_of(fn, e.func, c, pm)] = norm(b.src)
+                        src_use = b.node
     if set(srcs) == {'S', 'T'} and srcs['S'] == srcs['T']:
         r = srcs['S']
-        rdef = None
+        drawn = False
         if r.isidentifier():
-            rds = [v for _, v, how in astq.reaching_definitions(fn.node, r, ins[0], pm) if how == 'assign' and v is not None]
-            rdef = rds[0] if len(rds) == 1 else None
-        drawn = rdef is not None and any(isinstance(c, ast.Call) and norm(c.func) == 'secrets.randbelow' for c in ast.walk(rdef))
+            relts, rcomplete = list_elements(fn, ast.Name(id=r, ctx=ast.Load()), src_use, pm)
+            drawn = rcomplete and bool(relts) and all(isinstance(x, ast.Call) and norm(x.func) == 'secrets.randbelow' for x in relts)
         if drawn:
             rep.ok('CV1', fn, ins[1], f'without PRSS: each sender inputs the same CSPRNG integers {r} as source-field and as target-field elements')
         else:
@@ -221,7 +222,11 @@ def rule_CV2(ctx, rep):
         if isinstance(tg0, ast.Subscript) and norm(tg0.value) == xname:
             val = s.value
         elif isinstance(tg0, ast.Name) and tg0.id == xname and isinstance(s.value, ast.ListComp) and len(s.value.generators) == 1:
-            val = s.value.elt           # x = [<element> for i in range(n)]
+            # x = [<element> for i in range(n)] / for a, r in zip(x, R): the element with zipped variables written as X[i], R[i]
+            g0 = s.value.generators[0]
+            lp = _zip_elements(ast.For(target=g0.target, iter=g0.iter, body=[ast.Expr(value=s.value.elt)], orelse=[]))
+            val = lp.body[0].value
+            s = ast.Assign(targets=[ast.Subscript(value=ast.Name(id=xname, ctx=ast.Load()), slice=lp.target, ctx=ast.Store())], value=val)
         else:
             continue
         before = True
@@ -262,6 +267,8 @@ def rule_CV2(ctx, rep):
             continue
         if '[' in t:
             tg = norm(s.targets[0].slice) if isinstance(s.targets[0], ast.Subscript) else norm(s.value.generators[0].target)
+            if tg == '_i' or t.endswith('[_i]'):
+                continue            # zipped element by element: the same position by construction
             if not t.endswith(f'[{tg}]'):
                 rep.bad('CV2', fn, s, f'element {tg} is masked / unmasked with {t}: the mask of another element')
 
